@@ -216,6 +216,63 @@ def render_safety(run: Run):
         run.table("files.render:first-namespace-segment", True, group="files.render:first-namespace-segment")
 
 
+def subpackage_tree(run: Run):
+    """`exactly one types module per target proto file and one service package per service`, for files of proto sub-packages: the generator
+    renders the %sub templates once per API object of the tree spanned by API.subpackages (recursively), and a file is rendered by the object
+    whose subpackage_view equals the file's sub-package.  API.subpackages under contract: at view v (length n) the keys are exactly the n-th
+    segments of the files strictly below v, and the value under k views v + (k,) over the same protos.  Lemma (over that contract, no code):
+    a file below the view of an API object is below-or-at the view of one of its children, one level deeper - so by induction on
+    len(file.subpackage) - len(view) every target file is reached at the view that equals its own sub-package."""
+    from vf.model import pyv
+    m = SchemaModel()
+    m.add_class("Proto", {"meta": "Metadata"})
+    m.classes["Address"]["subpackage"] = "Seq[Str]"
+    m.classes["API"].update({"protos": "Map[Str,Proto]", "subpackage_view": "Seq[Str]", "all_protos": "Opaque", "naming": "Naming",
+                             "_fields": ["naming", "all_protos", "service_yaml_config", "subpackage_view"]})
+    m.globals["collections"] = pyv(("module", "collections"))
+    m.globals["dataclasses"] = pyv(("module", "dataclasses"))
+    # stated elementwise (the code compares a slice; tuples are compared by value)
+    m.add_spec("below", ["p", "view"], "len(p.meta.address.subpackage) > len(view) and forall(lambda i: p.meta.address.subpackage[i] == view[i], 0, len(view))")
+    m.add_spec("extends", ["v2", "v", "k"], "len(v2) == len(v) + 1 and forall(lambda i: v2[i] == v[i], 0, len(v)) and v2[len(v)] == k")
+    m.add_spec("prefix_of", ["v", "s"], "len(v) <= len(s) and forall(lambda i: v[i] == s[i], 0, len(v))")
+    seg = "p.meta.address.subpackage[len(self.subpackage_view)]"
+    same = "{0}[k].all_protos is self.all_protos and {0}[k].naming is self.naming"
+    c = Contract("API.subpackages", source=("gapic/schema/api.py", "API.subpackages"), params={"self": "API"}, result="Map[Str,API]",
+                 locals={"answer": "Map[Str,API]"},
+                 ensures=[f"forall(lambda p: implies(below(p, self.subpackage_view), {seg} in result), self.protos.values())",
+                          "forall(lambda k: extends(result[k].subpackage_view, self.subpackage_view, k) and " + same.format("result") + ", result.keys())",
+                          f"forall(lambda k: exists(lambda p: below(p, self.subpackage_view) and {seg} == k, self.protos.values()), result.keys())"],
+                 invariants={"for#1": ["forall(lambda i: _seq[i] in answer, 0, _k)",
+                                       "forall(lambda k: extends(answer[k].subpackage_view, self.subpackage_view, k) and " + same.format("answer") + ", answer.keys())",
+                                       f"forall(lambda k: exists(lambda p: below(p, self.subpackage_view) and {seg} == k, self.protos.values()), answer.keys())"]})
+    m.add_contract(c)
+    run.verify(m, c)
+    # the induction step, from the contract alone (the property `subpackages` is read by contract)
+    m.classes["API"]["subpackages"] = "Map[Str,API]"
+    fdef = ast.parse("def reach_step(api, p):\n    return api.subpackages\n").body[0]
+    child = "result[p.meta.address.subpackage[len(api.subpackage_view)]]"
+    lem = Contract("lemma.subpackage-tree-reaches-every-file:step", source=("<ghost>", "reach_step"), params={"api": "API", "p": "Proto"}, result="Map[Str,API]",
+                   requires=["exists(lambda q: q is p, api.protos.values())", "prefix_of(api.subpackage_view, p.meta.address.subpackage)",
+                             "len(p.meta.address.subpackage) > len(api.subpackage_view)"],
+                   ensures=["p.meta.address.subpackage[len(api.subpackage_view)] in result",
+                            f"prefix_of({child}.subpackage_view, p.meta.address.subpackage)",
+                            f"len({child}.subpackage_view) == len(api.subpackage_view) + 1",
+                            f"{child}.all_protos is api.all_protos"])
+    run.verify(m, lem, body_override=(fdef, "ghost"))
+    # the generator walks exactly this tree: _render_template recurses over api_schema.subpackages.values() for %sub templates
+    fdef2, h2 = find_def(GEN, "Generator._render_template")
+    src = ast.unparse(fdef2)
+    run.functions.append({"qualname": "Generator._render_template (sub-package recursion)", "source": GEN, "sha256_16": h2, "obligations": "AST pattern"})
+    run.table("files.subpackages:render-recurses-over-API.subpackages",
+              "for subpackage in api_schema.subpackages.values():" in src and "api_schema=subpackage" in src and "skip_subpackages = True" in src
+              and "proto.meta.address.subpackage != api_schema.subpackage_view" in src and "service.meta.address.subpackage != api_schema.subpackage_view" in src,
+              detail="%sub templates are rendered once per child of API.subpackages (recursively); per-proto and per-service templates skip files / services whose "
+                     "sub-package differs from the view", group="files.subpackages:tree")
+    run.assume(*m.assumptions)
+    run.assume("API.protos (the files of all_protos to generate whose sub-package starts with the view) is read as an input of API.subpackages; the tree is finite "
+               "because each level consumes one segment of some file's sub-package (termination of the recursion is not proved)")
+
+
 def types_module_injectivity(run: Run):
     """`exactly one types module per target proto file` needs Proto.module_name to be injective on the target files; the real property
     body depends only on the base name of the (sanitised) file name."""
@@ -302,6 +359,7 @@ def run(run: Run):
     naming_lemmas(run)
     render_safety(run)
     types_module_injectivity(run)
+    subpackage_tree(run)
     bounded_filenames(run)
     run.native_standin("props.C11_native", "options_bounded",
                        "BOUNDED: the real Options.build over all option strings of <= 3 items from a 12-item alphabet (repeated scalar overrides, list-valued namespace, "
